@@ -11,7 +11,7 @@ EXPLANATION = ('Panic-site inventory over every body reachable from the engine e
                'agreement, or by a reviewed invariant whose maintenance obligations are rules of this framework; containers asserted '
                'empty at CONNACK may not receive insertions in PendingConnack (typestate); every Err exit of the two engine wrappers '
                'halts the engine and Halted is absorbing until connection-closed; packet dispatch is total; explicit protocol-error '
-               'exits of packet handlers precede any mutation; time arithmetic on user-configured durations is checked.')
+               'exits of packet handlers precede any mutation; time arithmetic on user-configured durations is checked. Added in round 2: an error is scoped to its connection - opening a connection unconditionally resets every decoder field (must-effects summary), also out of the latched error state.')
 ASSUMPTIONS = ['not decided: that no driver-producible event order reaches a site protected only by a listed invariant (the invariants are '
                'argued structurally by their maintenance rules, not proved over histories); "a conforming server is never reported as violating"',
                'integer overflow asserts on length sums are profile dependent and excluded from the inventory']
@@ -157,7 +157,7 @@ def run(ctx):
     ctx.rule('R-C11-3', 'T3 + T6', 'every Err result of the two engine wrappers halts the engine; Halted is left only through connection-closed; in Halted service, incoming data and write completion fail before touching state')
     for nm in ('handle_network_event', 'service'):
         w = ctx.fn('ProtocolState::' + nm)
-        eds = prims.edge_nodes_matching(w, [r'^Result::is_err\(result\)$'])
+        eds = prims.edge_nodes_matching(w, [r'^result is Err$'])
         halts = [c.bb for c in w.calls('ProtocolState::change_state') if show(c.arg(1)) == 'ProtocolStateType::Halted{}']
         ok = len(eds) == 1 and bool(halts)
         if ok:
@@ -211,7 +211,7 @@ def run(ctx):
     va = inc.calls('validate::validate_packet_inbound_internal')
     ctx.ob(len(dc) == 1 and len(va) == 1 and len(hp_calls) == 1 and inc.dominates(dc[0].bb, va[0].bb) and inc.dominates(va[0].bb, hp_calls[0].bb), 'incoming data: decode, then validate, then handle', 'pipeline-order', loc=inc.loc())
     for c in hp_calls:
-        requires(ctx, inc, c.bb, [r'^!Result::is_err\(validate::validate_packet_inbound_internal\(', r'^!Result::is_err\(Decoder::decode_bytes\('], 'pipeline-guards', 'handling a packet', loc=c.loc())
+        requires(ctx, inc, c.bb, [r'^validate::validate_packet_inbound_internal\(.* is Ok$', r'^Decoder::decode_bytes\(.* is Ok$'], 'pipeline-guards', 'handling a packet', loc=c.loc())
 
     # ------------------------------------------------------------ R-C11-5
     ctx.rule('R-C11-5', 'T1 invariant maintenance', 'I4/I5: negotiated settings become Some exactly at the CONNACK success site and None only in reset; the CONNACK deadline is cleared only where PendingConnack is left')
